@@ -1455,6 +1455,38 @@ func c06Verify(c *core.Ctx) {
 			}
 		}
 	}
+	isOpaque := map[types.Object]bool{}
+	for _, o := range opaque {
+		isOpaque[o] = true
+	}
+	writes := map[types.Object][]string{}
+	writesOf := func(fo *types.Func) []string {
+		if w, ok := writes[fo]; ok {
+			return w
+		}
+		var out []string
+		if fd := declOf(f.Pkg, fo); fd != nil {
+			for _, g := range reach(c06FuncOfDecl(f.Pkg, fd), 3) {
+				ast.Inspect(g.Body, func(n ast.Node) bool {
+					switch x := n.(type) {
+					case *ast.AssignStmt:
+						for _, l := range x.Lhs {
+							if fld := c06FieldSel(g, l); fld != nil {
+								out = append(out, fld.Name())
+							}
+						}
+					case *ast.IncDecStmt:
+						if fld := c06FieldSel(g, x.X); fld != nil {
+							out = append(out, fld.Name())
+						}
+					}
+					return true
+				})
+			}
+		}
+		writes[fo] = out
+		return out
+	}
 	feas := c06NewFeasible(f)
 	// The decided atoms are mirrored into event facts ("ev:atom:<key>"): the engine may drop the
 	// caller's facts when a second state enters a helper interpreted in place (the parameter is
@@ -1491,6 +1523,20 @@ func c06Verify(c *core.Ctx) {
 			mirror(st)
 		},
 		OnCall: func(st *flow.State, call *ast.CallExpr, callee types.Object, deferred bool) {
+			// NoHavoc keeps facts about ctx's fields across calls; a same-package callee that
+			// stays opaque may assign them (initFromSignedRequest sets isPresign, ExpireTime,
+			// Time — and the engine now learns `isPresign == false` from the composite literal
+			// that creates ctx): forget what such a callee may write
+			if fo, ok := callee.(*types.Func); ok && fo.Pkg() == f.Pkg.Types && isOpaque[fo] {
+				for _, name := range writesOf(fo) {
+					for _, k := range atomKeys {
+						if strings.Contains(k, "."+name) {
+							st.Set(k, flow.Unknown)
+							st.Set(ev(k), flow.Unknown)
+						}
+					}
+				}
+			}
 			for _, sc := range signCalls {
 				if sc == call {
 					if !st.Is("ev:secret", flow.True) {
